@@ -30,7 +30,9 @@ WORDS = ["]]>", "&amp;", "<para>", "\U0001F600", "a  b", " a ", "&#38;", "<!--",
          "<title>", "<PARA>", "< para>", "<para/>", "<ulink url=\"u\">", "<b>a</b>", "<?pi x?>", "<![CDATA[x]]>",
          # characters some line-splitting / whitespace routines treat specially but XML does not
          "a\u2028b", "a\u2029b", "a\u0085b", "a\u00a0b", "a\tb", "a\n\nb", "a\u200bb", "a\ufeffb", "a\u3000b",
-         "a\u2003b", "\ufffd", "a\u0301"]
+         "a\u2003b", "\ufffd", "a\u0301",
+         # long values: more than 32 markup characters, more than 80 / 120 / 4096 characters, a leading blank
+         "x0 < 0 & x1 > 1 & " * 12, " leading blank, then " + "a long run of words " * 8, "\u00e9" * 150 + "<", "y" * 5000 + "&"]
 EML_EXCLUDED = ("&amp;", "&lt;", "&gt;", "<para>", "</para>")
 NAMES = ["a", "b", "a-b.c_1", "é_n"]
 
@@ -343,6 +345,33 @@ def work(item):
     return acc
 
 
+def scale_trees():
+    """beyond the exhaustive bound: deep and wide shapes, and elements whose start tag is long (many attributes, qualified
+    attributes and namespace declarations, values with leading blanks, quotes and markup characters)"""
+    out = []
+    for label, sh in gtree.scale_shapes():
+        for deco in (1, 2):
+            out.append((f"scale:{label}/deco{deco}", decorate(sh, deco)))
+    for k in (5, 9, 14):
+        g = decorate(gtree.shapes_upto(3)[-1], 1)
+        for i, (path, n) in enumerate(gtree.walk(g)):
+            vals = [" value number %d" % j if j % 3 == 0 else ('say "%d" & <go>' % j if j % 3 == 1 else "v%d " % j + "w" * 20) for j in range(k)]
+            n["attrs"] = [[f"attr{j}", vals[j]] for j in range(k)]
+            n["extras"] = [[f"p{j}:x", " " + vals[j]] for j in range(min(k, 6))]
+        g["ns"] = [["p", "urn:u1"], ["q", "urn:u2"]] + [[f"p{j}", f"urn:some-long-namespace-uri/{j}"] for j in range(6)]
+        out.append((f"scale:{k}-attributes", g))
+    return out
+
+
+def scale_work(item):
+    label, g = item
+    acc = core.Acc()
+    acc.add_problems(check(g, {"scale": label, "tree": None, "slots": []}))
+    acc.count("trees")
+    acc.count("scale_trees")
+    return acc
+
+
 def plan(tier):
     maxn = 4 if tier == "quick" else 5
     n = 2 if tier == "quick" else 3
@@ -363,6 +392,8 @@ def plan(tier):
 
 
 def replay(case):
+    if case.get("scale"):
+        return check(dict(scale_trees())[case["scale"]], case)
     g2 = gtree.clone(case["tree"])
     for s, v in case["slots"]:
         set_slot(g2, (s[0], s[1], s[2]), v)
@@ -372,6 +403,7 @@ def replay(case):
 def explore(tier):
     items = plan(tier)
     accs = core.pmap(work, items)
+    accs += core.pmap(scale_work, scale_trees())
     acc = core.merge_all(accs)
     n = acc.counts.get("trees", 0)
     cov = {
